@@ -38,10 +38,7 @@ Lemma run_files_stop c start me merged forked : snd (run_files c start me merged
   j_stop c <> 0 /\ (j_stop c / j_bundle c + 1) * j_bundle c <= me.
 Proof.
   unfold run_files. match goal with |- snd (let '(_, _) := ?X in _) = _ -> _ => destruct X as [fevs r] end. cbn [snd].
-  destruct r; try discriminate.
-  destruct (negb (j_stop c =? 0)) eqn:H0; cbn [andb]; [|discriminate].
-  destruct (N.leb_spec ((j_stop c / j_bundle c + 1) * j_bundle c) me) as [Hle|Hgt]; [|discriminate]. intros _.
-  split; [apply negb_true_iff in H0; apply N.eqb_neq; exact H0 | exact Hle].
+  destruct r; try discriminate. apply file_end_stop.
 Qed.
 
 Lemma c13_stop_over_raw_proof : C13_stop_over_raw.
